@@ -662,3 +662,20 @@ def given_values_not_discarded(chk, rule, rels):
                                '`%s` is replaced by %s exactly when it has a value' % (t.id, norm(st.value)[:50]))
     chk.ob(rule, 'default-filling-idioms', n >= 0, ','.join(r.split('/')[-1] for r in rels)[:80],
            '%d `if not V` guards seen' % n)
+
+
+def reuse(chk, rule_fn, src_rules, new_rule, doc, keep=None, floor=1):
+    """Register the obligations another property's rule produces (ids in src_rules) under `new_rule` of this
+    property: one implementation, several properties whose behaviour depends on the same mechanism."""
+    from vt.runner import Check
+    tmp = Check(chk.prop, chk.tier, chk.model, chk.repo)
+    rule_fn(tmp)
+    chk.doc(new_rule, doc)
+    n = 0
+    for o in tmp.obligations:
+        if o.rule in src_rules and (keep is None or keep(o)):
+            chk.ob(new_rule, o.key, o.ok, o.where, o.detail)
+            n += 1
+    chk.units.update(tmp.units)
+    chk.floor(new_rule, floor, 'instances of %s' % '/'.join(src_rules))
+    return n
